@@ -15,6 +15,8 @@ mode=complete : loop-free (or fully unwound, unwinding assertions on) harness
 mode=bounded  : bounded stand-in, reported but never counted as proved
 """
 import fcntl
+import sys as _sys
+_sys.path.insert(0, __import__('os').path.dirname(__import__('os').path.abspath(__file__)))
 import glob
 import json
 import os
@@ -129,6 +131,19 @@ def prepare(extra_tests=None):
                         txt, n = strip_instrument(txt)
                         dropped += n
                     for i in by_target.get(rel, []):
+                        m_in = re.search(r'^//@inside\s+(.+)$', i['text'], re.M)
+                        if m_in:
+                            # place the harness module inside the named (private) module so that its private items are reachable
+                            import rsrc
+                            tmp = os.path.join(ROOT, 'inside.tmp.rs')
+                            open(tmp, 'w').write(txt)
+                            try:
+                                it = rsrc.Source(tmp).find([e.strip() for e in m_in.group(1).split('::')])
+                                a_, b_ = it.interior()
+                            except rsrc.LostAnchor as e:
+                                raise KaniLimit('inject %s: %s' % (i['path'], e))
+                            txt = txt[:b_] + '\n// ---- injected by /verif (%s) ----\n' % os.path.relpath(i['path'], VERIF) + i['text'] + '\n' + txt[b_:]
+                            continue
                         txt = txt.rstrip('\n') + '\n\n// ---- injected by /verif (%s) ----\n' % os.path.relpath(i['path'], VERIF) + i['text']
                     if extra_tests and rel in extra_tests:
                         txt = txt.rstrip('\n') + '\n\n' + extra_tests[rel]
@@ -173,7 +188,7 @@ def _env():
 COMPILE_ERR_RE = re.compile(r'^error(\[E\d+\])?:', re.M)
 
 
-MEM_LIMIT_BYTES = int(os.environ.get('VERIF_KANI_MEM_GB', '14')) * (1 << 30)
+MEM_LIMIT_BYTES = int(os.environ.get('VERIF_KANI_MEM_GB', '30')) * (1 << 30)
 
 
 def _limit_mem():
@@ -200,7 +215,7 @@ def run_harnesses(names, tier='quick', jobs=None):
             out_json = os.path.join(ROOT, 'out-%s-%d.json' % (crate, os.getpid()))
             if os.path.exists(out_json):
                 os.remove(out_json)
-            njobs = jobs or (12 if crate == 'trippy-packet' else 4)
+            njobs = jobs or (12 if crate == 'trippy-packet' else 2)
             cmd = ['cargo', 'kani', '-p', crate, '-Z', 'function-contracts', '-Z', 'stubbing', '-Z', 'unstable-options',
                    '--output-format', 'terse', '-j', str(njobs), '--harness-timeout', '%ds' % tmax,
                    '--export-json', out_json, '--target-dir', TARGET]
